@@ -71,8 +71,9 @@ class LoopSpec:
 
     # -- helpers
     def _type_locals(self, I, fr):
+        lm = I.index.local_map(fr.qual)
         for name, kind in self.typed_locals.items():
-            v = fr.locals.get(name)
+            v = fr.locals.get(lm.get(name, name))
             if isinstance(v, VList):
                 c = I.st.list_cell(v.loc)
                 if c.kind is None:
@@ -80,9 +81,10 @@ class LoopSpec:
                     I.st.heap[v.loc] = ListCell(z3.Empty(z3.SeqSort(kind.sort)), kind, c.pytype, c.maxlen)
 
     def havoc(self, I, fr):
+        lm = I.index.local_map(fr.qual)
         for tgt in self.modifies:
             if tgt.startswith('local:'):
-                n = tgt[6:]
+                n = lm.get(tgt[6:], tgt[6:])
                 if n in fr.locals:
                     fr.locals[n] = fresh_like(I, fr.locals[n], n)
             elif tgt.startswith('self.'):
@@ -109,7 +111,7 @@ class LoopSpec:
         # `defines`: the havocked container is given a *shape* (e.g. [h] + tail) instead of an opaque fresh value
         for tgt, text in self.defines.items():
             v = I.eval_spec(text, fr, old_st=getattr(I, 'contract_pre', None),
-                            old_frame=getattr(I, 'contract_pre_frame', None))
+                            old_frame=getattr(I, 'contract_pre_frame', None), loop_text=True)
             t, k = I.seq_term(v)
             obj = fr.locals['self']
             cur = I.get_attr(obj, tgt[5:], fr)
@@ -123,7 +125,7 @@ class LoopSpec:
         out = []
         for name, text in self.invariant:
             out.append((name, I.spec_bool(text, sf, old_st=getattr(I, 'contract_pre', None),
-                                          old_frame=getattr(I, 'contract_pre_frame', None))))
+                                          old_frame=getattr(I, 'contract_pre_frame', None), loop_text=True)))
         return out
 
     def _check(self, I, fr, extra, tag):
@@ -158,7 +160,11 @@ class LoopSpec:
             self.havoc(I, fr)
             tok = I.iter_token(it)
             if tok is not None and not tok[1].eq(t):
-                raise Unsupported('the list being iterated is in the modifies set of its own loop')
+                # side condition of the for-loop rule (iteration over a sequence that the loop does not change) is violated:
+                # reported as a failed loop obligation, the rest of the rule is not applicable
+                I.oblige('%s.iterated_list_is_not_modified_by_the_loop' % self.name, z3.BoolVal(False), kind='loop')
+                I.st.obligations[-1].props = self.props
+                raise PathEnd()
             P = z3.Const(sym.fresh_name('P'), t.sort())
             m = z3.Const(sym.fresh_name('m'), k.sort)
             R = z3.Const(sym.fresh_name('R'), t.sort())
@@ -178,7 +184,10 @@ class LoopSpec:
                 # leaving the loop from an arbitrary iteration: the path continues after the loop (else skipped)
                 I.st.ghost['_broke_at'] = VSeq(P, k)
                 return
-            I.iter_check(tok)
+            if tok is not None and not I.st.list_cell(tok[0]).term.eq(tok[1]):
+                I.oblige('%s.iterated_list_is_not_modified_by_the_loop' % self.name, z3.BoolVal(False), kind='loop')
+                I.st.obligations[-1].props = self.props
+                raise PathEnd()
             self._check(I, fr, {'_P': VSeq(z3.Concat(P, z3.Unit(m)), k), '_S': S, '_R': VSeq(R, k)}, 'step')
             raise PathEnd()
         self.havoc(I, fr)
@@ -189,7 +198,7 @@ class LoopSpec:
     def _capture_entry(self, I, fr):
         for name, text in self.entry_ghost.items():
             v = I.eval_spec(text, fr, old_st=getattr(I, 'contract_pre', None),
-                            old_frame=getattr(I, 'contract_pre_frame', None))
+                            old_frame=getattr(I, 'contract_pre_frame', None), loop_text=True)
             if isinstance(v, VList):
                 t, k = I.seq_term(v)
                 v = VSeq(t, k)
@@ -209,7 +218,7 @@ class LoopSpec:
                 raise PathEnd()
             d0 = None
             if self.decreases:
-                d0 = I.num(I.eval_spec(self.decreases, fr))
+                d0 = I.num(I.eval_spec(self.decreases, fr, loop_text=True))
             try:
                 I.exec_block(node.body, fr)
             except ContinueSignal:
@@ -220,7 +229,7 @@ class LoopSpec:
                 return
             self._check(I, fr, {}, 'step')
             if d0 is not None:
-                d1 = I.num(I.eval_spec(self.decreases, fr))
+                d1 = I.num(I.eval_spec(self.decreases, fr, loop_text=True))
                 I.oblige('%s.decreases' % self.name, z3.And(d0 >= 0, d1 < d0), kind='loop')
                 I.st.obligations[-1].props = self.props
             raise PathEnd()
